@@ -78,9 +78,9 @@ type BalanceConfig struct {
 // Balance generates balance report
 func Balance(logStream, dbStream io.Reader, bc BalanceConfig) error {
 	return utils.WithResolvedDatabase(dbStream, bc.ParserConfig, bc.ResolverConfig,
-		func(nl shared.DBNodeMap) error {
+		func(nl shared.DBNodeMap) (err error) {
 			r := getReporter(bc.ReporterConfig, nl)
-			defer r.Flush()
+			defer utils.FlushOnExit(r, &err)
 			f := filter.GetIntervalNodeFilter(bc.FilterConfig)
 			return utils.WalkNodesInStream(logStream, bc.DateFormat, bc.ParserConfig, f, r)
 		})
